@@ -15,7 +15,9 @@ The float glue (`calculate_distance`, `math.cos/sin(math.radians(angle))`) is ti
 exact for 0/90/180/270 degrees and for Pythagorean angles).
 -/
 import FlexModel.Geo.AreaLemmas
+import FlexModel.Geo.AreaSnap
 import Generated.Mib
+import Generated.AreaFacts
 
 namespace Props.C07
 open FlexModel.Geo.Area
@@ -400,6 +402,97 @@ theorem azimuth_ignored_partial (sh : Shape) (a b c s north east : Rat) (hu : c 
   · subst h
     rw [FvalCode_eq_FvalLocal, FvalCode_eq_FvalLocal, FvalLocal_circle a b 1 0 north east (by norm_num),
       FvalLocal_circle a b c s north east hu]
+
+/-! ## Round 4: two facts about the SHAPE of the source that the decisions above rely on
+(regenerated from router.py on every run by harness/gen_area.py into `Generated.AreaFacts`) -/
+
+/-- the Annex B.3 guard of one function is where the model puts it: exactly one guard, in the function's top-level
+statement list (or top-level `try` body), `size > itsGnMaxGeoAreaSize * 1 000 000`, its body returns, and NO effect
+precedes it in source order (source operation: no `return`, sequence number, signature, forwarding selection or
+transmission; receive handlers: no transmission / forwarder call) -/
+def guardFirst (g : Generated.AreaFacts.SizeGuard) : Bool :=
+  g.present && g.toplevel && g.refuses && g.cmpGt && g.factor == 1000000 && g.effectsBefore == 0 && g.count == 1
+
+/-- **size control comes first in the source**: in `gn_data_request_gbc` (refusing with GEOGRAPHICAL_SCOPE_TOO_LARGE;
+`gn_data_request_gac` is a plain delegation or has the same guard) and in both receive handlers.  Moving the guard
+below an early `return ACCEPTED` (seeded change C07-m6) or below a transmission re-opens this obligation. -/
+theorem size_control_first_of_source :
+    (guardFirst Generated.AreaFacts.requestGbc && Generated.AreaFacts.requestGbc.refusalCode &&
+     (Generated.AreaFacts.requestGacDelegates ||
+       (guardFirst Generated.AreaFacts.requestGac && Generated.AreaFacts.requestGac.refusalCode)) &&
+     guardFirst Generated.AreaFacts.indicateGbc && guardFirst Generated.AreaFacts.indicateGac) = true := by decide
+
+/-- **oversize request refused, for the guard position of the source** and every location-table state / traffic
+class (`bc` = no neighbour ∧ SCF, `g` = greedy forwarding found a next hop or may fall back to broadcast) -/
+theorem oversize_refused_src_of_source (s : Shape) (a b : Rat) (maxKm2 : Nat) (fEgo : Rat) (bc g : Bool)
+    (h : (maxKm2 : Rat) * 1000000 < areaSize s a b) :
+    srcRequestAt (guardFirst Generated.AreaFacts.requestGbc) s a b maxKm2 fEgo bc g = ⟨.geographicalScopeTooLarge, 0⟩ := by
+  have hg : guardFirst Generated.AreaFacts.requestGbc = true := by decide
+  rw [hg]
+  simpa [srcRequestAt] using oversize_refused_src s a b maxKm2 fEgo bc g h
+
+/-- the guard below the buffer case (C07-m6): with an empty location table and an SCF traffic class a circle of
+12.57 km² is ACCEPTED under a 10 km² limit - and refused as soon as a neighbour is known or SCF is off; with the guard
+first it is refused in every state -/
+theorem oversize_accepted_guard_late_witness :
+    srcRequestLate .circle 2000 0 10 (-1) true true = ⟨.accepted, 0⟩ ∧
+    srcRequestLate .circle 2000 0 10 (-1) false true = ⟨.geographicalScopeTooLarge, 0⟩ ∧
+    srcRequest .circle 2000 0 10 (-1) true true = ⟨.geographicalScopeTooLarge, 0⟩ := by decide +kernel
+
+/-- **every decision function loads each replaceable position vector at most once** (the sender's / source's LocTE
+`position_vector`, `self.ego_position_vector`): the counts of `Generated.AreaFacts.pvLoads`.  Three separate loads
+of `se_entry.position_vector` (seeded change C07-m5; `gn_data_indicate_gac` and the ego reads before fix
+C07-pv-snapshot) re-open this obligation. -/
+theorem position_vectors_read_once_of_source :
+    Generated.AreaFacts.pvLoads.all (fun x => decide (x.2.2 ≤ 1)) = true := by decide
+
+/-- **one consistent position vector**: whatever the history `h` of vectors the object holds while other threads replace
+it, whenever the loads happen (`ts`) and whichever load serves which field (`ld`, below the load count of the source):
+each decision function of the source sees exactly ONE vector the object really held -/
+theorem decision_sees_one_position_vector (f o : String) (n : Nat) (hm : (f, o, n) ∈ Generated.AreaFacts.pvLoads)
+    (ld : Nat → Nat) (hld : ∀ i, ld i < n) (h : Nat → SPV) (ts : Nat → Nat) :
+    seen ld h ts = h (ts 0) := by
+  have hall := position_vectors_read_once_of_source
+  rw [List.all_eq_true] at hall
+  have hn : n ≤ 1 := by simpa using hall _ hm
+  exact seen_of_single_load n hn ld hld h ts
+
+/-- … hence the forwarder's Annex D selection is Annex D on a position vector the sender had, and the delivery
+decision is F(ego) ≥ 0 on a position the station had -/
+theorem annexD_on_one_sender_vector (n : Nat) (hn : n ≤ 1) (F : Int → Int → Rat) (fEgo : Rat) (ld : Nat → Nat)
+    (hld : ∀ i, ld i < n) (h : Nat → SPV) (ts : Nat → Nat) :
+    selectionSeen F fEgo ld h ts = annexD fEgo (some (seOf F (h (ts 0)))) ∧
+    deliverSeen F ld h ts = decide (0 ≤ F (h (ts 0)).lat (h (ts 0)).lon) := by
+  simp only [selectionSeen, deliverSeen, seen_of_single_load n hn ld hld h ts, and_self]
+
+/-- non-vacuity: `gn_forwarding_algorithm_selection` is in the table with ONE load of the sender's vector -/
+example : ("gn_forwarding_algorithm_selection", "LocTE#0.position_vector", 1) ∈ Generated.AreaFacts.pvLoads := by decide
+
+/-- **three loads (C07-m5)**: circle r = 100 around the origin of a flat map (1 unit = 1 m).  The sender's LocTE holds
+`old` = 600 m east with PAI, then a concurrent beacon replaces it by `new` = 50 m east WITHOUT PAI.  Annex D on `old`
+and on `new` both say non-area forwarding; PAI loaded before and the position after the replacement gives
+(PAI, inside) → DISCARD: a decision on a vector the sender never had.  The same with latitude and longitude from
+different vectors: 600 m east → 600 m north, seen as the centre. -/
+theorem torn_sender_witness :
+    let F : Int → Int → Rat := fun lat lon => Fval .circle 100 100 (lat : Rat) (lon : Rat)
+    let h1 : Nat → SPV := fun t => if t = 0 then ⟨true, 0, 600⟩ else ⟨false, 0, 50⟩
+    let h2 : Nat → SPV := fun t => if t = 0 then ⟨true, 0, 600⟩ else ⟨true, 600, 0⟩
+    -- loads: PAI at instant 0, latitude and longitude at instant 1
+    selectionSeen F (-1) id h1 (fun i => if i = 0 then 0 else 1) = .discard ∧
+    annexD (-1) (some (seOf F (h1 0))) = .nonAreaForwarding ∧ annexD (-1) (some (seOf F (h1 1))) = .nonAreaForwarding ∧
+    -- loads: PAI and latitude at instant 0, longitude at instant 1
+    selectionSeen F (-1) id h2 (fun i => if i = 2 then 1 else 0) = .discard ∧
+    annexD (-1) (some (seOf F (h2 0))) = .nonAreaForwarding ∧ annexD (-1) (some (seOf F (h2 1))) = .nonAreaForwarding := by
+  decide +kernel
+
+/-- two loads of the ego vector (latitude, then longitude): the station moves from 150 m north to 150 m east of the
+centre (never inside the circle of 100 m) and is seen AT the centre - delivered although never inside -/
+theorem torn_ego_witness :
+    let F : Int → Int → Rat := fun lat lon => Fval .circle 100 100 (lat : Rat) (lon : Rat)
+    let h : Nat → SPV := fun t => if t = 0 then ⟨true, 0, 150⟩ else ⟨true, 150, 0⟩
+    deliverSeen F (fun i => if i = 2 then 1 else 0) h id = true ∧
+    decide (0 ≤ F (h 0).lat (h 0).lon) = false ∧ decide (0 ≤ F (h 1).lat (h 1).lon) = false := by
+  decide +kernel
 
 /-! ## Model facts (restate definitions; not part of the claimed list) -/
 namespace Model
